@@ -19,6 +19,7 @@ type vhCalls struct {
 	fnOK  map[string]bool
 	order bool // pre/fn/post discipline respected
 	open  string
+	hook  func(k string) // runs once, inside the next cleanup call (the cache lock is released there)
 }
 
 func (c *vhCalls) pre(k string, v *vhItem) {
@@ -40,6 +41,11 @@ func (c *vhCalls) post(k string, v *vhItem) {
 func (c *vhCalls) fn(k string, v *vhItem) error {
 	c.log = append(c.log, "fn:"+k)
 	c.fnN[k]++
+	if c.hook != nil {
+		h := c.hook
+		c.hook = nil
+		h(k)
+	}
 	if v == nil || v.id != k {
 		c.order = false
 	}
@@ -304,6 +310,27 @@ func VH_C20_History() {
 	}
 	c := New(opts)
 	lastUse := map[string]int64{} // keys the history believes present -> last use
+	// another client inserts a key while a cleanup callback of Delete or DeleteAll runs
+	// (both release the cache lock around the callback; the pruners do not): at most once
+	// per history, always the last key of the universe
+	delAll := vh.Param("DELALL", 0) == 1
+	hookUsed := false
+	armHook := func() {
+		if !hasFn || !delAll || hookUsed || !vh.Bool("setDuringCleanup") {
+			return
+		}
+		hookUsed = true
+		key := keys[len(keys)-1]
+		calls.hook = func(cleaned string) {
+			if key == cleaned {
+				return // (re-inserting the key that is being cleaned is a different story)
+			}
+			c.Set(key, &vhItem{id: key})
+			calls.fnOK[key] = false
+			lastUse[key] = vclock.LastNs()
+			vh.Cover("C20.set-during-cleanup")
+		}
+	}
 	quiescent := func() {
 		vh.Sched()
 		for _, key := range keys {
@@ -324,22 +351,30 @@ func VH_C20_History() {
 			vh.Assert(c.timer != nil && c.timer.Active(), "C20.timer-armed")
 		}
 	}
-	nOps := 3
+	// operation alphabet: Set, Delete, settle; DeleteAll (and the insertion during a
+	// cleanup callback) with DELALL=1; Get and the timers with expiry on
+	opsList := []int{0, 1, 2}
+	if delAll {
+		opsList = append(opsList, 3)
+	}
 	if expiry {
-		nOps = 5
+		opsList = append(opsList, 4, 5)
 	}
 	for step := 0; step < k; step++ {
 		vclock.Advance(time.Second)
-		op := vh.Choice("op", nOps)
+		op := opsList[vh.Choice("op", len(opsList))]
 		switch op {
 		case 0: // Set
 			key := keys[vh.Choice("key", len(keys))]
 			c.Set(key, &vhItem{id: key})
 			vh.Assert(vhHas(c, key), "C20.set-present")
+			calls.fnOK[key] = false
 			lastUse[key] = vclock.LastNs()
 		case 1: // Delete
 			key := keys[vh.Choice("key", len(keys))]
+			armHook()
 			err := c.Delete(key)
+			calls.hook = nil
 			if _, was := lastUse[key]; was && vhHas(c, key) {
 				vh.Assert(err != nil && hasFn && calls.fail[key], "C20.delete")
 			}
@@ -353,12 +388,25 @@ func VH_C20_History() {
 		case 2: // the pending pruning goroutines run now
 			quiescent()
 			vh.Cover("C20.history-settled")
-		case 3: // Get (a use)
+		case 3: // DeleteAll
+			armHook()
+			_ = c.DeleteAll()
+			calls.hook = nil
+			for _, key := range keys {
+				if _, was := lastUse[key]; was && !vhHas(c, key) {
+					if hasFn {
+						vh.Assert(calls.fnOK[key], "C20.removed-without-successful-cleanup")
+					}
+					delete(lastUse, key)
+					calls.fnOK[key] = false
+				}
+			}
+		case 4: // Get (a use)
 			key := keys[vh.Choice("key", len(keys))]
 			if _, err := c.Get(key); err == nil {
 				lastUse[key] = vclock.LastNs()
 			}
-		case 4: // time passes (1 s or 20 s) and every armed timer fires
+		case 5: // time passes (1 s or 20 s) and every armed timer fires
 			if vh.Bool("far") {
 				vclock.Advance(20 * time.Second)
 			}
